@@ -7,7 +7,7 @@ python3 tools/derive_unit.py contracts/C38/authorise.toml contracts/C39/token_ex
   --not-covered "$(nc contracts/C39/token_exchange.toml)"
 python3 tools/derive_unit.py contracts/C23/ldap_compare.toml contracts/C40/ldap_compare.toml C40 ldap_compare 'exists_sem' \
   --not-covered "LdapServer::do_search (attribute mapping, SearchEvent construction: the LDAP/native equivalence for searches is not under contract), Filter::from_ldap_ro itself; do_op dispatch (that no LDAP operation reaches a write transaction) is covered only by the absence of a write path in the extracted functions, not by a contract"
-python3 tools/derive_unit.py contracts/C09/merge_state.toml contracts/C08/merge_state.toml C08 merge_state 'live_merge_lww|cid_min|lww_val|is_ts\(r\.valid|r\.valid\.ecstate ==|stored_survives|all_states_at' \
+python3 tools/derive_unit.py contracts/C09/merge_state.toml contracts/C08/merge_state.toml C08 merge_state 'live_merge_lww|cid_min|lww_val|is_ts\(r\.valid|r\.valid\.ecstate ==|stored_survives|all_states_at|schema_valid|conflict_marked' \
   --not-covered "everything around the pairwise merge: consumer_incremental_apply_entries / supplier_provide_changes (which entries and attribute states travel), resolve_add_conflict and the conflict entries, validate_repl, the post-replication plugins (attrunique, refint, memberof), refresh; convergence of the whole system is a protocol-level property outside per-function contracts — this unit proves the algebra of one merge step (last writer wins per attribute, order independent)"
 python3 tools/derive_unit.py contracts/C10/supplier_mapping.toml contracts/C09/supplier_supply.toml C09 supplier_supply 'reply_supplies_all|incr_of' \
   --not-covered "be::retrieve_range (WHICH entries fall inside the windows) and ReplIncrementalEntryV1::new (which attribute states of an entry are sent); the consumer side applying every supplied entry (consumer_apply_changes); supplier_provide_refresh"
